@@ -235,6 +235,17 @@ def generate(repo):
     if missing:
         raise ExtractError(f'no struct format found for {missing}')
 
+    # BOOL_LOOKUP of srctools/__init__.py (used by the string -> bool conversion)
+    init_tree = ast.parse((repo / 'src/srctools/__init__.py').read_text(encoding='utf-8'))
+    bl = ast.literal_eval(_top_assign(init_tree, 'BOOL_LOOKUP'))
+    if not (isinstance(bl, dict) and all(isinstance(k, str) and isinstance(v, bool) for k, v in bl.items())):
+        raise ExtractError('BOOL_LOOKUP is not a dict str -> bool')
+    conv_src = src
+    if '_conv_string_to_bool(text: str) -> bool: return BOOL_LOOKUP[text.casefold()]' not in conv_src \
+            or '_conv_bool_to_string = bool_as_int' not in conv_src or '_conv_integer_to_string = str' not in conv_src \
+            or '_conv_string_to_integer = int' not in conv_src:
+        raise ExtractError('bool/int string conversions not understood')
+
     vt = lambda c: '.' + VT_LEAN[c]
     L = ['import Srctools.Model.C14',
          '/-! GENERATED by tools/gen_dmx.py from src/srctools/dmx.py — do not edit. -/',
@@ -250,5 +261,6 @@ def generate(repo):
          f'  stubWrite := .{stub_w}',
          f'  stubRead := .{stub_r}',
          '  kv2Names := [' + ', '.join(f'({vt(c)}, [' + ', '.join(f'Char.ofNat {ord(ch)}' for ch in text[c]) + '])' for c in canon) + ']',
+         '  boolLookup := [' + ', '.join('([' + ', '.join(f'Char.ofNat {ord(ch)}' for ch in k) + '], ' + ('true' if v else 'false') + ')' for k, v in bl.items()) + ']',
          '', 'end Gen.Dmx']
     return '\n'.join(L) + '\n'
